@@ -533,3 +533,171 @@ TWINS["C01"] = [
     TW("pi-letters-renamed",
        (PI, '"bsan,bsa,b->bsn"', '"bxaz,bxa,b->bxz"')),
 ]
+
+# ----------------------------------------------------------------------------------- C02
+TP = C + "mdp/tabularpolicy.py"
+MPOL = C + "mdp/policy.py"
+MUTANTS["C02"] = [
+    M("revert-F20-policy-matrix-selection", ["MAT-1"],
+      (TP, """        policy_matrix = self._policy_matrix_on(mdp)
+        absorbing_state_vec = mdp.absorbing_state_vec.astype(bool)
+        state_rewards = np.einsum(
+            "sa,sa->s",
+            policy_matrix, mdp.state_action_reward_matrix
+        )
+        state_rewards[absorbing_state_vec] = 0
+        markov_process = np.einsum(
+            "san,sa->sn",
+            mdp.transition_matrix,
+            policy_matrix
+        )
+        markov_process[absorbing_state_vec, :] = 0
+        successor_representation = np.linalg.inv(
+            np.eye(markov_process.shape[0]) - mdp.discount_rate*markov_process""", """        policy_matrix = np.array(self[mdp.state_list,][:,mdp.action_list])
+        absorbing_state_vec = mdp.absorbing_state_vec.astype(bool)
+        state_rewards = np.einsum(
+            "sa,sa->s",
+            policy_matrix, mdp.state_action_reward_matrix
+        )
+        state_rewards[absorbing_state_vec] = 0
+        markov_process = np.einsum(
+            "san,sa->sn",
+            mdp.transition_matrix,
+            policy_matrix
+        )
+        markov_process[absorbing_state_vec, :] = 0
+        successor_representation = np.linalg.inv(
+            np.eye(markov_process.shape[0]) - mdp.discount_rate*markov_process""")),
+    M("disc-mask-on-columns", ["TEN-3", "BEL-3"],
+      (TP, "        markov_process[absorbing_state_vec, :] = 0\n        successor_representation = np.linalg.inv(\n            np.eye(markov_process.shape[0]) - mdp.discount_rate*markov_process",
+       "        markov_process[:, absorbing_state_vec] = 0\n        successor_representation = np.linalg.inv(\n            np.eye(markov_process.shape[0]) - mdp.discount_rate*markov_process")),
+    M("disc-chain-mask-dropped", ["BEL-3"],
+      (TP, "        markov_process[absorbing_state_vec, :] = 0\n        successor_representation = np.linalg.inv(\n            np.eye(markov_process.shape[0]) - mdp.discount_rate*markov_process",
+       "        successor_representation = np.linalg.inv(\n            np.eye(markov_process.shape[0]) - mdp.discount_rate*markov_process")),
+    M("disc-reward-mask-dropped", ["BEL-3"],
+      (TP, "        state_rewards[absorbing_state_vec] = 0\n        markov_process = np.einsum(\n            \"san,sa->sn\",\n            mdp.transition_matrix,\n            policy_matrix\n        )\n        markov_process[absorbing_state_vec, :] = 0\n        successor_representation",
+       "        markov_process = np.einsum(\n            \"san,sa->sn\",\n            mdp.transition_matrix,\n            policy_matrix\n        )\n        markov_process[absorbing_state_vec, :] = 0\n        successor_representation")),
+    M("disc-no-discount-in-system", ["BEL-2"],
+      (TP, "np.eye(markov_process.shape[0]) - mdp.discount_rate*markov_process", "np.eye(markov_process.shape[0]) - markov_process")),
+    M("disc-value-occupancy-transposed", ["TEN-2"],
+      (TP, """        state_value = np.einsum(
+            "sz,z->s",
+            successor_representation, state_rewards
+        )
+        action_value = \\
+            mdp.state_action_reward_matrix + \\
+            np.log(mdp.action_matrix) + \\
+            np.einsum(
+                "san,n->sa",
+                mdp.discount_rate*mdp.transition_matrix,""", """        state_value = np.einsum(
+            "sz,s->z",
+            successor_representation, state_rewards
+        )
+        action_value = \\
+            mdp.state_action_reward_matrix + \\
+            np.log(mdp.action_matrix) + \\
+            np.einsum(
+                "san,n->sa",
+                mdp.discount_rate*mdp.transition_matrix,""")),
+    M("disc-occupancy-as-value", ["TEN-2"],
+      (TP, """        state_occupancy = np.einsum(
+            "sz,s->z",
+            successor_representation,
+            mdp.initial_state_vec
+        )
+        initial_value = state_value.dot(mdp.initial_state_vec)""", """        state_occupancy = np.einsum(
+            "sz,z->s",
+            successor_representation,
+            mdp.initial_state_vec
+        )
+        initial_value = state_value.dot(mdp.initial_state_vec)""")),
+    M("disc-action-value-no-discount", ["BEL-2"],
+      (TP, "                mdp.discount_rate*mdp.transition_matrix,\n                state_value\n            )\n        state_occupancy", "                mdp.transition_matrix,\n                state_value\n            )\n        state_occupancy")),
+    M("disc-action-value-no-penalty", ["BEL-1"],
+      (TP, "            mdp.state_action_reward_matrix + \\\n            np.log(mdp.action_matrix) + \\\n            np.einsum(", "            mdp.state_action_reward_matrix + \\\n            np.einsum(")),
+    M("disc-policy-einsum-letters", ["TEN-1"],
+      (TP, """        markov_process = np.einsum(
+            "san,sa->sn",
+            mdp.transition_matrix,
+            policy_matrix
+        )
+        markov_process[absorbing_state_vec, :] = 0
+        successor_representation""", """        markov_process = np.einsum(
+            "san,as->sn",
+            mdp.transition_matrix,
+            policy_matrix
+        )
+        markov_process[absorbing_state_vec, :] = 0
+        successor_representation""")),
+    M("undisc-recurrent-rows-kept", ["REC-2"],
+      (TP, "        markov_process[recurrent_states] = 0\n", "")),
+    M("undisc-inf-from-wrong-mask", ["REC-3"],
+      (TP, "state_value[negative_recurrent_accessible_states] = float('-inf')", "state_value[negative_recurrent_states] = float('-inf')")),
+    M("undisc-negative-recurrent-ignores-reward", ["REC-3"],
+      (TP, "negative_recurrent_states = recurrent_states & (state_rewards < 0)", "negative_recurrent_states = recurrent_states")),
+    M("undisc-discount-in-system", ["BEL-2"],
+      (TP, "            np.eye(markov_process.shape[0]) - markov_process\n", "            np.eye(markov_process.shape[0]) - 0.999*markov_process*mdp.discount_rate\n")),
+    M("dispatch-le", ["DISP-1"],
+      (TP, "        if mdp.discount_rate < 1.0:\n            return self._evaluate_on_discounted(mdp)", "        if mdp.discount_rate <= 1.0:\n            return self._evaluate_on_discounted(mdp)")),
+    M("to-tabular-store-transposed", ["TAB-1"],
+      (MPOL, "                policy_matrix[si, ai] = prob", "                policy_matrix[ai, si] = prob")),
+    M("sink-value-table-from-occupancy", ["BEL-1", "TEN-3"],
+      (TP, """            state_value=StateTable.from_state_list(
+                state_list=mdp.state_list,
+                data=state_value
+            ),
+            action_value=StateActionTable.from_state_action_lists(
+                state_list=mdp.state_list,
+                action_list=mdp.action_list,
+                data=action_value
+            ),
+            initial_value=initial_value,
+            state_occupancy=StateTable.from_state_list(
+                state_list=mdp.state_list,
+                data=state_occupancy
+            ),
+            n_simulations=None
+        )
+    
+    def _evaluate_on_undiscounted""", """            state_value=StateTable.from_state_list(
+                state_list=mdp.state_list,
+                data=state_value
+            ),
+            action_value=StateActionTable.from_state_action_lists(
+                state_list=mdp.state_list,
+                action_list=mdp.action_list,
+                data=action_value
+            ),
+            initial_value=initial_value,
+            state_occupancy=StateTable.from_state_list(
+                state_list=mdp.state_list,
+                data=state_value
+            ),
+            n_simulations=None
+        )
+    
+    def _evaluate_on_undiscounted""")),
+]
+TWINS["C02"] = [
+    TW("disc-gamma-outside-einsum",
+       (TP, "                mdp.discount_rate*mdp.transition_matrix,\n                state_value\n            )\n        state_occupancy", "                mdp.transition_matrix,\n                state_value\n            )*mdp.discount_rate\n        state_occupancy")),
+    TW("disc-mask-without-slice",
+       (TP, "        markov_process[absorbing_state_vec, :] = 0\n        successor_representation = np.linalg.inv(\n            np.eye(markov_process.shape[0]) - mdp.discount_rate*markov_process",
+        "        markov_process[absorbing_state_vec] = 0\n        successor_representation = np.linalg.inv(\n            np.eye(markov_process.shape[0]) - mdp.discount_rate*markov_process")),
+    TW("disc-letters-renamed",
+       (TP, """        state_value = np.einsum(
+            "sz,z->s",
+            successor_representation, state_rewards
+        )
+        action_value = \\
+            mdp.state_action_reward_matrix + \\
+            np.log(mdp.action_matrix) + \\""", """        state_value = np.einsum(
+            "ij,j->i",
+            successor_representation, state_rewards
+        )
+        action_value = \\
+            mdp.state_action_reward_matrix + \\
+            np.log(mdp.action_matrix) + \\""")),
+    TW("disc-gamma-times-chain-swapped",
+       (TP, "np.eye(markov_process.shape[0]) - mdp.discount_rate*markov_process", "np.eye(markov_process.shape[0]) - markov_process*mdp.discount_rate")),
+]
